@@ -209,8 +209,8 @@ namespace ratio
 #elif LA_TN
                         leqs[&atm0][&atm1] = get_solver().get_lra_theory().new_leq(a0_end->l, a1_start->l);
                         leqs[&atm1][&atm0] = get_solver().get_lra_theory().new_leq(a1_end->l, a0_start->l);
-                        // we boost propagation..
-                        [[maybe_unused]] bool nc = get_solver().get_sat_core().new_clause({!leqs[&atm0][&atm1], !leqs[&atm1][&atm0]});
+                        // we boost propagation: the two orderings can hold together only between empty atoms (start == end) at the same instant..
+                        [[maybe_unused]] bool nc = get_solver().get_sat_core().new_clause({!leqs[&atm0][&atm1], !leqs[&atm1][&atm0], get_solver().get_lra_theory().new_leq(a0_end->l, a0_start->l)});
                         assert(nc);
 #endif
                         found = true;
@@ -228,8 +228,8 @@ namespace ratio
 #elif LA_TN
                 leqs[&atm0][&atm1] = get_solver().get_lra_theory().new_leq(a0_end->l, a1_start->l);
                 leqs[&atm1][&atm0] = get_solver().get_lra_theory().new_leq(a1_end->l, a0_start->l);
-                // we boost propagation..
-                [[maybe_unused]] bool nc = get_solver().get_sat_core().new_clause({!leqs[&atm0][&atm1], !leqs[&atm1][&atm0]});
+                // we boost propagation: the two orderings can hold together only between empty atoms (start == end) at the same instant..
+                [[maybe_unused]] bool nc = get_solver().get_sat_core().new_clause({!leqs[&atm0][&atm1], !leqs[&atm1][&atm0], get_solver().get_lra_theory().new_leq(a0_end->l, a0_start->l)});
                 assert(nc);
 #endif
             }
@@ -244,8 +244,8 @@ namespace ratio
 #elif LA_TN
                 leqs[&atm0][&atm1] = get_solver().get_lra_theory().new_leq(a0_end->l, a1_start->l);
                 leqs[&atm1][&atm0] = get_solver().get_lra_theory().new_leq(a1_end->l, a0_start->l);
-                // we boost propagation..
-                [[maybe_unused]] bool nc = get_solver().get_sat_core().new_clause({!leqs[&atm0][&atm1], !leqs[&atm1][&atm0]});
+                // we boost propagation: the two orderings can hold together only between empty atoms (start == end) at the same instant..
+                [[maybe_unused]] bool nc = get_solver().get_sat_core().new_clause({!leqs[&atm0][&atm1], !leqs[&atm1][&atm0], get_solver().get_lra_theory().new_leq(a0_end->l, a0_start->l)});
                 assert(nc);
 #endif
             }
@@ -258,8 +258,8 @@ namespace ratio
 #elif LA_TN
             leqs[&atm0][&atm1] = get_solver().get_lra_theory().new_leq(a0_end->l, a1_start->l);
             leqs[&atm1][&atm0] = get_solver().get_lra_theory().new_leq(a1_end->l, a0_start->l);
-            // we boost propagation..
-            [[maybe_unused]] bool nc = get_solver().get_sat_core().new_clause({!leqs[&atm0][&atm1], !leqs[&atm1][&atm0]});
+            // we boost propagation: the two orderings can hold together only between empty atoms (start == end) at the same instant..
+            [[maybe_unused]] bool nc = get_solver().get_sat_core().new_clause({!leqs[&atm0][&atm1], !leqs[&atm1][&atm0], get_solver().get_lra_theory().new_leq(a0_end->l, a0_start->l)});
             assert(nc);
 #endif
         }
